@@ -124,7 +124,7 @@ func runNativeBatch(workDir string, g Group, pkgName string, names []string, lis
 	}
 	args = append(args, g.Import)
 	cmd := exec.Command("go", args...)
-	cmd.Dir = filepath.Join(verifRoot, "ws")
+	cmd.Dir = wsDir()
 	cmd.Env = append(os.Environ(), append(goEnv(), "VERIF_MODELS="+listPath)...)
 	out, _ := cmd.CombinedOutput()
 	return string(out)
